@@ -12,6 +12,7 @@ let () =
   | _ :: "c03" :: rest -> C03.run rest
   | _ :: ("c08" | "c09") :: rest -> C08.run rest
   | _ :: "c15" :: rest -> C15.run rest
+  | _ :: "c16" :: rest -> C16.run rest
   | _ :: "c19" :: rest -> C19.run rest
   | _ :: "c20" :: rest -> C20.run rest
   | _ -> prerr_endline "usage: model <property> ..."; exit 2
